@@ -6,7 +6,7 @@ cd /repo || exit 2
 if ! git diff --quiet; then echo "repo dirty"; exit 2; fi
 git apply "$patch" || { echo "patch does not apply"; exit 2; }
 for p in "$@"; do
-  out=$(cd /verif && bin/check "$p" 2>&1); rc=$?
+  out=$(cd /verif && bin/check "$p" --outdir /var/tmp/seed_out 2>&1); rc=$?
   echo "== $p rc=$rc"; echo "$out" | grep -E "VIOLATION|KNOWN|OK property|INCONCLUSIVE|failed obligation" | head -6
 done
 git checkout -- . ; git clean -fdq -- contracts packages 2>/dev/null
